@@ -26,13 +26,13 @@ PriceSeedTexts == {JoinLines(PriceLines, "\n", 1), JoinLines(PriceLines, "\r\n",
                    JoinLines(SubSeq(PriceLines, 1, 3), "\n", 1) \o "P 2024/04/01 EUR 1.3 USD",
                    "\n\n" \o JoinLines(SubSeq(PriceLines, 1, 2), "\n", 1) \o "\n\n"}
               \cup {PriceLines[i] \o "\n" : i \in 1..Len(PriceLines)}
-PriceAlphabet == {";", "#", "P ", "P", " ", "  ", "\t", "\n", "\r", "\r\n", ",", ".", "-", "+", "/", "0", "9", "(", ")", "@", "=", "{", "2024/01/01", "2024-13-01", "EUR", "\"a b\"",
+PriceAlphabet == {"\"", "include \"", ";", "#", "P ", "P", " ", "  ", "\t", "\n", "\r", "\r\n", ",", ".", "-", "+", "/", "0", "9", "(", ")", "@", "=", "{", "2024/01/01", "2024-13-01", "EUR", "\"a b\"",
                   "é", "日本", "　", "́", "﻿", "⟦NUL⟧", "⟦EMOJI⟧", "1e5", "0.000001"}
 
-Alphabet == {";", "#", "*", "!", "(", ")", "{", "}", "{{", "}}", "[", "]", "@", "@@", "=", "  ", "\t", "\n", "\r", "\r\n", ",", ".", "-", "+", "/", ":", "::",
+Alphabet == {"\"", "include \"", ";", "#", "*", "!", "(", ")", "{", "}", "{{", "}}", "[", "]", "@", "@@", "=", "  ", "\t", "\n", "\r", "\r\n", ",", ".", "-", "+", "/", ":", "::",
              "0", "9", "include ", "account ", "commodity ", "apply tag ", "end apply tag", "2024/01/01", "    alias ", "    format ", "P ",
              "é", "日本", "　", "́", "﻿", "​", "⟦NUL⟧", "⟦EMOJI⟧", " ", "�", " "}
-MCNestDepths == {1, 10, 100, 1000, 5000, 20000}
+MCNestDepths == {1, 10, 100, 1000, 5000, 20000, 60000}
 NoDepths == {}
 
 \* history-free state space: one line per distinct text
